@@ -445,6 +445,14 @@ void* _ZNK4bloc5Error4whatEv(void* self) {
   return buf;
 }
 
+/* error-text formatting helpers of BLOC, when an instance cuts them (--stub): they yield an empty string.
+ * (Only the text of error messages depends on them; kernels about that text do not cut them.) */
+void _ZNK4bloc4Type8typeNameB5cxx11Ev(void* ret, void* self) { vx_str_init(S(ret), "", 0); }
+void _ZNK4bloc4Type8typeNameERKNSt7__cxx1112basic_stringIcSt11char_traitsIcESaIcEEE(void* ret, void* self, void* nick) { vx_str_init(S(ret), "", 0); }
+void _ZNK4bloc5Value8toStringB5cxx11Ev(void* ret, void* self) { vx_str_init(S(ret), "", 0); }
+void _ZNK4bloc5Value8typeNameB5cxx11Ev(void* ret, void* self) { vx_str_init(S(ret), "", 0); }
+void _ZNK4bloc9TupleDecl4Decl9tupleNameB5cxx11Ev(void* ret, void* self) { vx_str_init(S(ret), "", 0); }
+
 /* ---- strto* : exact models for digit strings of up to 20 characters ---- */
 static int vx_digit(char c, int base) {
   int v = (c >= '0' && c <= '9') ? c - '0' : (c >= 'a' && c <= 'z') ? c - 'a' + 10 : (c >= 'A' && c <= 'Z') ? c - 'A' + 10 : 99;
